@@ -108,6 +108,8 @@ def hostile_ops(rng, pkt, light=False):
     # usage code reuses the *addrlen a failed first lookup wrote back, so sizes < 28 are the caller's bug)
     ops.append(f"stun uccproc {rng.choice([28, 128])} {rng.randrange(4)}")
     ops.append(f"stun ubindproc {rng.choice([28, 128])} {rng.choice(['null', '28', '128'])}")
+    ops.append(f"stun uturnproc {rng.choice([28, 128])} {rng.choice([28, 128])} {rng.choice(['null', '28', '128'])} {rng.randrange(6)}")
+    ops.append(f"stun uturnrefproc {rng.randrange(6)}")
     if not light:
         cap = rng.choice([0, 10, 19, 20, 24, 28, 44, 60, 64, 100, 1300, rng.randrange(0, 1301)])
         fam = rng.choice([4, 4, 6, 7])
@@ -118,6 +120,11 @@ def hostile_ops(rng, pkt, light=False):
                                f"stun unk {cap}"]))
         if rng.random() < 0.5:
             ops.append("stun fin " + rng.choice(["null", "70617373"]))
+        # TURN requests built from the hostile packet as `previous_response`
+        txid = S.rand_txid(rng, True).hex()
+        ops.append(rng.choice([
+            f"stun uturn {cap} {txid} 1 {rng.randrange(4)} {rng.choice([-1, 0, 7])} {rng.choice([-1, 600])} 6162 70617373 {rng.randrange(5)}",
+            f"stun uturnref {cap} {txid} 1 {rng.choice([-1, 0, 600])} 6162 70617373 {rng.randrange(5)}"]))
     return ops
 
 
@@ -179,7 +186,17 @@ def s_builders(rng):
         cap = rng.choice([lo, lo + 1, lo + 3, lo + 4, max(lo, 19), 20, 24, 27, 28, 44, 60, 100, 1300, rng.randrange(lo, 1301)])
         txid = S.rand_txid(rng, True).hex()
         k = rng.random()
-        if k < 0.5:
+        if k < 0.3:
+            fam = rng.choice(["4", "6", "7", "null"])
+            ip = S.hx(S.rand_bytes(rng, 16 if fam == "6" else 4))
+            lines.append(rng.choice([
+                f"stun uturn {cap} {txid} 0 {rng.randrange(4)} {rng.choice([-1, 0, 2 ** 31 - 1])} {rng.choice([-1, 0, 600])} "
+                f"{rng.choice(['null', '-', '6162'])} {rng.choice(['null', '70617373'])} {rng.randrange(6)}",
+                f"stun uturnref {cap} {txid} 0 {rng.choice([-1, 0, 600])} {rng.choice(['null', '6162'])} "
+                f"{rng.choice(['null', '70617373'])} {rng.randrange(6)}",
+                f"stun uturnperm {cap} {txid} {rng.choice(['null', '6162'])} {rng.choice(['null', '70617373'])} "
+                f"{rng.choice(['null', '7265616c6d'])} {rng.choice(['null', '6e6f6e6365'])} {fam} {rng.getrandbits(16)} {ip} {rng.randrange(5)}"]))
+        elif k < 0.5:
             lines.append(f"stun ucc {cap} {txid} {rng.choice(['null', '-', '6162', '61626364656667'])} "
                          f"{rng.choice(['null', '-', '70617373'])} {rng.randrange(2)} {rng.randrange(2)} "
                          f"{rng.getrandbits(32)} {rng.getrandbits(64)} {rng.choice(['null', '-', '61', '6162636465'])} {rng.randrange(4)}")
@@ -265,10 +282,10 @@ def oracle(session, out):
                 return f"reply length {ow[3]} exceeds the output buffer size {w[2]}"
             if not 0 <= int(ow[1]) <= 8:
                 return f"create_reply returned {ow[1]}"
-        elif op in ("iresp", "ierr", "unk", "fin", "ucc", "ubind", "ukeep") and o.startswith("ret"):
+        elif op in ("iresp", "ierr", "unk", "fin", "ucc", "ubind", "ukeep", "uturn", "uturnref", "uturnperm") and o.startswith("ret"):
             ow = o.split()
             cap = len(S.unhx(ow[7]))
-            if op in ("unk", "fin", "ucc", "ubind", "ukeep") and int(ow[1]) > cap:
+            if op in ("unk", "fin", "ucc", "ubind", "ukeep", "uturn", "uturnref", "uturnperm") and int(ow[1]) > cap:
                 return f"{op} returned length {ow[1]} for a {cap}-byte buffer"
         elif op in ("val", "valm") and o.startswith("status"):
             if not 0 <= int(o.split()[1]) <= 9:
